@@ -533,6 +533,10 @@ def menu(unit, recipe):
     # transitions leave the subject of this property)
     common = [["set", "pdu_header.transmission_mode", {"enum": "TransmissionMode", "v": 1 - cfg["mode"]}],
               ["set", "crc_flag", {"enum": "CrcFlag", "v": 1}], ["call", "pack"]]
+    if name not in ("NakPdu", "KeepAlivePdu", "FileDataPdu"):  # those two have the event in their own menus; File Data offers no setter
+        # the large-file flag changed after construction (every directive offers the setter; where a file-size field follows the
+        # flag the packed PDU grows or shrinks)
+        common.insert(1, ["set", "file_flag", {"enum": "LargeFileFlag", "v": 1 - cfg["large"]}])
     cc = lambda v: {"enum": "ConditionCode", "v": v}  # noqa: E731
     if name == "EofPdu":
         ev = [["set", "condition_code", cc(4)], ["set", "condition_code", cc(0)], ["set", "file_checksum", "hex:01020304"],
@@ -801,7 +805,7 @@ def pus_ctor_src(name, r, alt=None):
         imp = "from spacepackets.ccsds.spacepacket import PacketType, SequenceFlags, SpacePacketHeader\n"
         if (name, alt) == ("PusTc", "from_sp_header"):
             return (imp + "from spacepackets.ecss.tc import PusTc\n"
-                    f"obj = PusTc.from_sp_header(SpacePacketHeader(PacketType.TC, {r['apid']:#x}, {r['seq']:#x}, 0), {r['svc']}, {r['sub']}, {hx('data')}, "
+                    f"obj = PusTc.from_sp_header(SpacePacketHeader(PacketType.TC, {r['apid']:#x}, {r['seq']:#x}, 0x0123), {r['svc']}, {r['sub']}, {hx('data')}, "
                     f"{r['src']:#x}, {r['ack']:#x})")
         if (name, alt) == ("PusTc", "from_composite_fields"):
             n = len(UP.bb(r["data"]))
